@@ -38,7 +38,9 @@ type gdata struct {
 	released func()
 	hasrel   bool
 	errc     uint64
-	empty    bool // the resolver returns the empty value (only together with an error)
+	empty    bool // the resolver returns the empty value (with an error: `return zero, rel, err`, or without: handle 0 / nil pointer)
+	nonce    uint32
+	hasNonce bool
 	passed   bool // left the first gate
 	stored   bool // its store section was stepped
 	exiting  bool // resolve is returning (site 4)
@@ -170,11 +172,22 @@ func newSys(w *hist.W, cfg []uint64) *sys {
 		switch site {
 		case 0:
 			a := s.c.NewActor(kGor)
-			a.Data = &gdata{}
+			d := &gdata{}
+			d.nonce, d.hasNonce = obj.(uint32)
+			a.Data = d
 			s.gors = append(s.gors, a)
 			return a
 		case 2:
 			a := s.c.NewActor(kAsync)
+			// the generation whose released() this is: the goroutine of that nonce
+			a.Data = -1
+			if n, ok := obj.(uint32); ok {
+				for i, g := range s.gors {
+					if d := g.Data.(*gdata); d.hasNonce && d.nonce == n {
+						a.Data = i
+					}
+				}
+			}
 			s.asyncs = append(s.asyncs, a)
 			return a
 		case 3:
@@ -452,9 +465,14 @@ func (s *sys) exec(ev []uint64) (obs []uint64, ok bool) {
 		s.api(func() { d.released() })
 	case 6:
 		ps := s.parkedAsyncs()
-		if int(ev[1]) >= len(ps) {
+		if int(ev[1]) >= len(ps) || len(ev) != 3 {
 			return nil, false
 		}
+		g, _ := ps[ev[1]].Data.(int)
+		if g < 0 {
+			return nil, false
+		}
+		ev[2] = uint64(g)
 		s.c.Step(ps[ev[1]])
 	case 7:
 		g := int(ev[1])
@@ -475,7 +493,7 @@ func (s *sys) exec(ev []uint64) (obs []uint64, ok bool) {
 			return nil, false
 		}
 		empty := len(ev) > 4 && ev[4] != 0
-		if empty && (ev[4] != 1 || ev[3] == 0) {
+		if empty && ev[4] != 1 {
 			return nil, false
 		}
 		d := s.gors[g].Data.(*gdata)
@@ -648,7 +666,8 @@ func (s *sys) gen(r *rand.Rand, maxG int) []uint64 {
 	na := len(s.parkedAsyncs())
 	room := len(s.gors) < maxG
 	// a resolver return: an error one time in oneInErr; a failing resolver returns the empty value three times out of four
-	// (`return zero, rel, err`), otherwise its usual value; with or without a release function either way
+	// (`return zero, rel, err`), otherwise its usual value; a successful one returns the empty value (handle 0, a nil pointer
+	// with a cleanup) one time in five; with or without a release function either way
 	ret8 := func(g int, oneInErr int) []uint64 {
 		e, z := uint64(0), uint64(0)
 		if r.IntN(oneInErr) == 0 {
@@ -656,6 +675,8 @@ func (s *sys) gen(r *rand.Rand, maxG int) []uint64 {
 			if r.IntN(4) != 0 {
 				z = 1
 			}
+		} else if r.IntN(5) == 0 {
+			z = 1
 		}
 		return []uint64{8, uint64(g), uint64(b2u(r.IntN(4) > 0)), e, z}
 	}
@@ -756,7 +777,7 @@ func (s *sys) gen(r *rand.Rand, maxG int) []uint64 {
 		case x < 46 && len(entered) > 0 && room:
 			return []uint64{5, uint64(pick(r, entered))}
 		case x < 52 && na > 0:
-			return []uint64{6, uint64(r.IntN(na))}
+			return []uint64{6, uint64(r.IntN(na)), 0}
 		case x < 66 && len(gate0) > 0:
 			return []uint64{7, uint64(pick(r, gate0)), 0}
 		case x < 78 && len(inres) > 0:
@@ -822,10 +843,16 @@ func (s *sys) count(ev, obs []uint64) {
 	if ev[0] == 10 {
 		s.w.Count("ev.consumer_"+[]string{"wait", "wait_with_released", "access", "resolve", "resolve_with_released"}[ev[1]], 1)
 	}
-	if ev[0] == 8 && len(ev) > 4 && ev[4] == 1 {
+	if ev[0] == 8 && len(ev) > 4 && ev[4] == 1 && ev[3] != 0 {
 		s.w.Count("ev.resolver_return_error_with_empty_value", 1)
 		if ev[2] == 1 {
 			s.w.Count("ev.resolver_return_error_with_empty_value_and_release_func", 1)
+		}
+	}
+	if ev[0] == 8 && len(ev) > 4 && ev[4] == 1 && ev[3] == 0 {
+		s.w.Count("ev.resolver_return_empty_value_nil_error", 1)
+		if ev[2] == 1 {
+			s.w.Count("ev.resolver_return_empty_value_nil_error_and_release_func", 1)
 		}
 	}
 	if ev[0] == 3 && int(ev[1]) < len(s.refs) && s.refs[ev[1]].rel != nil {
